@@ -203,6 +203,33 @@ fn union_forms(sink: &mut Sink, fa: &dyn Fn() -> RangeMOC2<u64, Time<u64>, u64, 
   }
 }
 
+/// An operand SPANNING several elements of `a`: consecutive elements of `a` are grouped (1 to 3 per group) and each
+/// group gives ONE element whose time MOC is the single range from the start of the group to its end (gaps filled),
+/// so that one operand moves to its next element strictly inside a time range of the other one; the space MOC is the
+/// union of the group's space MOCs, the first one, a superset or an unrelated one.
+fn spanning_st(rng: &mut Rng, a: &[Elem]) -> Vec<Elem> {
+  let mut b: Vec<Elem> = Vec::new();
+  let mut i = 0;
+  let mut last_s = 0u64;
+  while i < a.len() {
+    let k = (1 + rng.below(3) as usize).min(a.len() - i);
+    let grp = &a[i..i + k];
+    let start = grp[0].0[0].start;
+    let end = grp[k - 1].0.last().unwrap().end;
+    let masks: Vec<u64> = grp.iter().map(|e| mask_of(&e.1, NS, sunit())).collect();
+    let all = masks.iter().fold(0, |x, y| x | y);
+    let mut sm = match rng.below(5) { 0 => all, 1 => masks[0], 2 => masks[0] | (1 << rng.below(NS)), 3 => masks[k - 1], _ => 1 + rng.below((1 << NS) - 1) };
+    if sm == last_s { sm = 1 + (sm % 15); }
+    let t = if rng.chance(1, 4) && k > 1 { vec![start..grp[0].0.last().unwrap().end, grp[k - 1].0[0].start..end] } else { vec![start..end] };
+    // a two-range time MOC must stay canonical (the two ranges may touch when the group has no gap)
+    let t = if t.len() == 2 && t[0].end >= t[1].start { vec![start..end] } else { t };
+    b.push((t, ranges_of_mask(sm, NS as u32, sunit())));
+    last_s = sm;
+    i += k;
+  }
+  b
+}
+
 fn c08_pass(sink: &mut Sink, rng: &mut Rng, thorough: bool) {
   let n = if thorough { 30_000 } else { 700 };
   let (tp, sp) = (nats(&grid_t()), nats(&grid_s()));
@@ -215,6 +242,8 @@ fn c08_pass(sink: &mut Sink, rng: &mut Rng, thorough: bool) {
     // a depleted operand element must not be flushed a second time
     pairs.push((vec![(vec![tc(0)], sm(3)), (vec![tc(2)], sm(4))], dt, vec![(vec![tc(0)], sm(5)), (vec![tc(2)], sm(3))], dt));
     pairs.push((vec![(vec![tc(0)], sm(3)), (vec![tc(1)], sm(4))], dt, vec![(vec![tc(0)], sm(5)), (vec![tc(1)], sm(3))], dt));
+    // one operand moves to its next elements strictly inside a time range of the other one (equal, nested, foreign space)
+    pairs.push((vec![(vec![tc(0), tc(1)], sm(3)), (vec![tc(3), tc(4)], sm(1)), (vec![tc(6)], sm(4))], dt, vec![(vec![t0()..t0() + 8 * tunit()], sm(3))], dt));
     // same end, different starts
     pairs.push((vec![(vec![tc(7)], sm(1))], dt, vec![(vec![t0() + 4 * tunit()..t0() + 8 * tunit()], sm(2))], dt));
     pairs.push((vec![(vec![tc(3)], sm(1))], dt, vec![(vec![t0() + 1 * tunit()..t0() + 4 * tunit()], sm(3))], dt));
@@ -235,8 +264,8 @@ fn c08_pass(sink: &mut Sink, rng: &mut Rng, thorough: bool) {
   }
   for i in 0..n {
     let mut a = random_st(rng);
-    let mut b = match i % 8 { 0 => a.clone(), 1 => vec![], 2 | 3 | 4 => related_st(rng, &a), _ => random_st(rng) };
-    sink.count(if (2..=4).contains(&(i % 8)) { "pair:related" } else { "pair:independent" });
+    let mut b = match i % 8 { 0 => a.clone(), 1 => vec![], 2 | 3 | 4 => related_st(rng, &a), 5 => spanning_st(rng, &a), _ => random_st(rng) };
+    sink.count(if (2..=4).contains(&(i % 8)) { "pair:related" } else if i % 8 == 5 { "pair:spanning" } else { "pair:independent" });
     if i % 32 == 20 {
       // the sub-cell range in the operand the other one was derived from
       if let Some(e) = a.first_mut() { let r0 = e.1[0].clone(); e.1[0] = r0.start..r0.start + sunit() / 4; }
@@ -626,9 +655,10 @@ fn c11_pass(sink: &mut Sink, rng: &mut Rng, thorough: bool) {
       let hx: String = t.iter().map(|b| format!("{:02x}", b)).collect();
       sink.emit(&format!("st_ascii_enc 64 {} {} {}", moc2.depth_max_1(), moc2.depth_max_2(), txt), &hx, nontrivial);
     }
-    // ---- JSON
+    // ---- JSON (several fold widths: a line break may fall before the very first cell of an order)
+    for fold in [Some(40usize), Some(24), Some(12), None] {
     let mut t = Vec::new();
-    let res = (&moc2).into_range_moc2_iter().into_cell_moc2_iter().to_json_aladin(&Some(40), &mut t);
+    let res = (&moc2).into_range_moc2_iter().into_cell_moc2_iter().to_json_aladin(&fold, &mut t);
     if res.is_ok() {
       let t = String::from_utf8(t).unwrap();
       let a = guarded(AssertUnwindSafe(|| match cellmoc2d_from_json_aladin::<u64, Time<u64>, u64, Hpx<u64>>(&t) {
@@ -649,8 +679,9 @@ fn c11_pass(sink: &mut Sink, rng: &mut Rng, thorough: bool) {
         sink.emit(&format!("st_ascii_dec 64 {}", hx), &a, nontrivial);
       }
       if a != expect {
-        sink.impl_failures.push(format!("st-json-roundtrip: {} -> {}", expect, a));
+        sink.impl_failures.push(format!("st-json-roundtrip: fold {:?}: {} -> {}", fold, expect, a));
       }
+    }
     }
   }
 }
